@@ -136,7 +136,7 @@ def guard_dominates(ctx):
         # additionally the sink must not be reachable when the guard's body ran
         ctx.check(ok, "sink:" + nm, db.where(n),
                   "call %s is not dominated by the '..' guard: a URI escaping the root reaches it" % nm,
-                  "dominated by guard at line %d" % guard.lineno)
+                  "dominated by guard at line %d" % getattr(guard, "_srcline", guard.lineno))
 
 
 def _chains_for(db, fnq, expr, stmt):
